@@ -169,8 +169,13 @@ class Report:
         nviol = 0
         replay_paths = []
         if os.environ.get("VERIF_DUMP_SIGS"):
+            # triage aid: signatures aggregated on the part before '|', one example each
+            agg: dict[str, list] = {}
             for sig, occs in sorted(self.violations.items()):
-                print(f"SIG {len(occs):6d} {sig}  e.g. " + json.dumps(occs[0]["detail"], default=repr)[:int(os.environ.get("VERIF_DUMP_SIGS"))])
+                a = agg.setdefault(sig.split("|")[0], [0, sig, occs[0]])
+                a[0] += len(occs)
+            for key, (n, sig, occ) in sorted(agg.items()):
+                print(f"SIG {n:6d} {key}  e.g. " + json.dumps(occ["detail"], default=repr)[: int(os.environ.get("VERIF_DUMP_SIGS"))])
             self.violations = {}
         for sig, occs in self.violations.items():
             nviol += len(occs)
